@@ -12,6 +12,7 @@
     say 3 and 2, so they stop checking when the source says anything else. *)
 From Coq Require Import List ZArith Bool Permutation String.
 From Paloma Require Import Base.Num Cons.Median Cons.MedianProofs Cons.Quorum Cons.QuorumProofs.
+From Paloma Require Cons.EvidenceBytes Cons.EvidenceBytesProofs.
 From Paloma Require Gen.C04.
 Import ListNotations.
 Open Scope Z_scope.
@@ -180,6 +181,82 @@ Theorem elected_estimate_came_from_quorum : forall (ops : list qm_op) (m0 : qmsg
     verify_gas_estimates sn (q_estimates m0 ++ pre) = Elected (q_elected (fold_left qm_step ops m0)).
 Proof. exact elected_came_from_quorum. Qed.
 Print Assumptions elected_estimate_came_from_quorum.
+
+(** ---- second round: the bytes of every proof type are inside the model (Cons/EvidenceBytes.v) ---- *)
+
+(** The proof types that can be evidence: exactly the four that have a model of their BytesToHash.
+    (The translator additionally refuses a tree that registers a fifth one.) *)
+Theorem evidence_proof_types_are_modelled :
+  Gen.C04.hashable_registered =
+    ["ReferenceBlockAttestationRes"; "SmartContractExecutionErrorProof"; "TxExecutedProof"; "ValidatorBalancesAttestationRes"]%string /\
+  Gen.C04.hashable_methods = Gen.C04.hashable_registered.
+Proof. exact EvidenceBytesProofs.proof_types_of_current_source. Qed.
+Print Assumptions evidence_proof_types_are_modelled.
+
+(** TxExecutedProof.BytesToHash as [bytes_to_hash (PTx tx receipt)] models it: the re-encoded
+    transaction, followed by the re-encoded receipt unless SerializedReceipt is nil. *)
+Theorem tx_proof_bytes_model_is_of_current_source :
+  Gen.C04.tx_proof_shape =
+    ["tx, err := h.GetTX()"; "if h.SerializedReceipt == nil { return tx.MarshalBinary() }"; "receipt, err := h.GetReceipt()";
+     "serializedTX, err := tx.MarshalBinary()"; "serializedReceipt, err := receipt.MarshalBinary()";
+     "return slices.Concat(serializedTX, serializedReceipt), nil";
+     "GetTX: tx.UnmarshalBinary(h.SerializedTX)"; "GetReceipt: receipt.UnmarshalBinary(h.SerializedReceipt)"]%string /\
+  forall t r, EvidenceBytes.bytes_to_hash (EvidenceBytes.PTx t r) = Some (t ++ match r with Some r => r | None => [] end).
+Proof. exact (conj eq_refl (fun t r => eq_refl)). Qed.
+Print Assumptions tx_proof_bytes_model_is_of_current_source.
+
+(** What the three rendering proof types write, as translated from the source now: the error proof its
+    message; the reference block height and hash, either separated by a newline or (weaker) run together;
+    the balances answer the height and then per balance either newline+length+colon+balance or (weaker)
+    newline+balance.  Any other layout — e.g. the separator moved behind the balances — is none of these
+    and this theorem (and the two below) stop checking. *)
+Theorem rendering_layouts_are_of_current_source :
+  Gen.C04.err_layout = EvidenceBytes.err_layout_cur /\ Gen.C04.err_each = [] /\
+  ((EvidenceBytes.ref_is_separated = true /\ Gen.C04.ref_layout = EvidenceBytes.ref_layout_separated /\ Gen.C04.ref_each = []) \/
+   (EvidenceBytes.ref_is_separated = false /\ Gen.C04.ref_layout = EvidenceBytes.ref_layout_unseparated /\ Gen.C04.ref_each = [])) /\
+  ((EvidenceBytes.bal_is_framed = true /\ Gen.C04.bal_layout = EvidenceBytes.bal_layout_cur /\ Gen.C04.bal_each = EvidenceBytes.bal_each_framed) \/
+   (EvidenceBytes.bal_is_framed = false /\ Gen.C04.bal_layout = EvidenceBytes.bal_layout_cur /\ Gen.C04.bal_each = EvidenceBytes.bal_each_newline)).
+Proof. exact EvidenceBytesProofs.layouts_of_current_source. Qed.
+Print Assumptions rendering_layouts_are_of_current_source.
+
+(** BytesToHash is injective on the fields: two proofs of one type with the same bytes have the same
+    value in EVERY field.  [wf_proof] asks of a tx proof what go-ethereum's MarshalBinary returns (a framed
+    transaction encoding, a non-empty receipt encoding; checked on every generated proof by X) and, only
+    while the source has the weaker layouts, a 0x-prefixed block hash / newline-free balances. *)
+Theorem bytes_to_hash_injective_on_fields : forall (p q : EvidenceBytes.proof) (b : EvidenceBytes.text),
+  EvidenceBytes.wf_proof p -> EvidenceBytes.wf_proof q -> EvidenceBytes.tag_of p = EvidenceBytes.tag_of q ->
+  EvidenceBytes.bytes_to_hash p = Some b -> EvidenceBytes.bytes_to_hash q = Some b -> p = q.
+Proof. exact EvidenceBytesProofs.bytes_to_hash_injective. Qed.
+Print Assumptions bytes_to_hash_injective_on_fields.
+
+(** ... and the conditions of the weaker layouts are needed: while the source has them, two different
+    answers with the same bytes exist (replayed on the real code: corpus refblock-digit-shift,
+    balances-embedded-newline). *)
+Theorem weaker_layouts_refuted :
+  (EvidenceBytes.ref_is_separated = false ->
+   exists p q, EvidenceBytes.tag_of p = EvidenceBytes.tag_of q /\ p <> q /\
+     EvidenceBytes.bytes_to_hash p = EvidenceBytes.bytes_to_hash q /\ EvidenceBytes.bytes_to_hash p <> None) /\
+  (EvidenceBytes.bal_is_framed = false ->
+   exists p q, EvidenceBytes.tag_of p = EvidenceBytes.tag_of q /\ p <> q /\
+     EvidenceBytes.bytes_to_hash p = EvidenceBytes.bytes_to_hash q /\ EvidenceBytes.bytes_to_hash p <> None).
+Proof. exact EvidenceBytesProofs.bytes_to_hash_conditions_needed. Qed.
+Print Assumptions weaker_layouts_refuted.
+
+(** End to end, for all snapshots, all lists of (validator, proof), all iteration orders: the winner is
+    one of the submitted proofs and the validators that submitted a proof equal to it IN EVERY FIELD hold
+    two thirds of the snapshot — or the (arbitrary) hash [h] has an explicit collision. *)
+Theorem winner_backers_agree_on_every_field :
+  forall (K : Type) (keqb : K -> K -> bool) (h : Z -> Z -> K),
+  (forall a b, keqb a b = true <-> a = b) ->
+  forall (ord : list group -> list group) (sn : snapshot) (pevs : list EvidenceBytes.pev) (w : evidence),
+  (forall gs, Permutation (ord gs) gs) ->
+  Forall (fun e => EvidenceBytes.wf_proof (EvidenceBytes.pe_proof e)) pevs ->
+  verify_evidence keqb (code_key h) ord sn (map EvidenceBytes.ev_of pevs) = Winner w ->
+  (exists t d t' d', (t, d) <> (t', d') /\ h t d = h t' d') \/
+  exists wp, In wp pevs /\ w = EvidenceBytes.ev_of wp /\ EvidenceBytes.bytes_to_hash (EvidenceBytes.pe_proof wp) <> None /\
+    2 * sn_total sn <= 3 * power sn (map EvidenceBytes.pe_val (filter (EvidenceBytesProofs.same_proof wp) pevs)).
+Proof. exact @EvidenceBytesProofs.winner_backers_agree_on_fields. Qed.
+Print Assumptions winner_backers_agree_on_every_field.
 
 
 (* --- source translation tie (GenFn) --- *)
